@@ -90,6 +90,10 @@ package actionlint
 //@ func isWorkflowCallUsesLocalFormat
 //@   ensures result == localfmt(u)
 //@   trusted localfmt is the name of this function's result
+// verified about localfmt (the rest of its definition stays the trusted naming above): only a text that starts
+// with "./" is a local call
+//@ func isWorkflowCallUsesLocalFormat
+//@   ensures [C14] result ==> hasprefix(u0, "./")
 //@ func isWorkflowCallUsesRepoFormat
 //@   ensures result == repofmt(u)
 //@   trusted repofmt is the name of this function's result
